@@ -109,7 +109,8 @@ class SimSocket(object):
             raise OSError(9, 'Bad file descriptor')
         self.sim.point('send')       # (a loop that only ever writes must run into the step budget as well)
         fault = self.sim.write_fault
-        if self.broken or (fault is not None and self.nsends >= fault):
+        gone = self.sim.write_fault_from
+        if self.broken or (fault is not None and self.nsends >= fault) or (gone is not None and self.sim.next > gone):
             # the peer is gone and the local stack finds out while writing (EPIPE / ECONNRESET)
             self.broken = True
             self.segments.clear()
@@ -378,7 +379,7 @@ class Sim(object):
 
     def __init__(self, role, actions, max_pdu=65536, budget=20000, store_in_file=frozenset(),
                  get_file_cb=None, accepted_contexts=None, write_fault=None, stall_write=None, stall_seconds=11.5,
-                 sock_timeout=None, sndbuf=None, shutdown_fault=False):
+                 sock_timeout=None, sndbuf=None, shutdown_fault=False, write_fault_from=None):
         self.role = role
         self.stopped_at = None
         self._last_log, self._stale = -1, 0
@@ -388,6 +389,7 @@ class Sim(object):
         self.stall_write = stall_write        # index of the write during which the peer pauses reading
         self.stall_seconds = stall_seconds
         self.write_fault = write_fault    # index of the first write on the transport that fails (None: never)
+        self.write_fault_from = write_fault_from    # every write fails once the script action with this index was released
         self.sndbuf = sndbuf              # bytes a send() takes at most when the socket is in time-out mode
         self.shutdown_fault = shutdown_fault    # shutdown() fails with ENOTCONN
         self.sock_timeout = sock_timeout  # the socket is in time-out mode from the start (socket.setdefaulttimeout)
